@@ -146,6 +146,14 @@ CANARIES = [
     ("getter-not-cached", "c06_getter", "tensor_base.py", "            self._view_grad = self._replay_op(grad).data if grad is not None else None\n        return self._view_grad", "            vg = self._replay_op(grad).data if grad is not None else None\n        return vg", r"C06\.getter\.view\.result_is_replayed_data_and_cached"),
     ("getter-window-onto-own-grad", "c06_getter", "tensor_base.py", "        grad = view_parent.grad\n", "        grad = view_parent._grad\n", r"C06\.getter\.view\.(replay_on_parents_gradient|window_onto)"),
     ("getter-owner-returns-cache", "c06_getter", "tensor_base.py", "        if self._base is None:\n            return self._grad\n\n        if (", "        if self._base is None:\n            return self._view_grad\n\n        if (", r"C06\.getter\.owner\.returns_own_grad"),
+    # ---- lock-set helpers (c08_sets) -----------------------------------------------------------------------------------------------
+    ("unique-base-after-view", "c08_sets", "_utils/lock_management.py", "            if arr.base is not None:\n                base_id = id(arr.base)\n                if base_id not in seen:\n                    seen.add(base_id)\n                    yield arr.base\n            seen.add(arr_id)\n            yield arr", "            seen.add(arr_id)\n            yield arr\n            if arr.base is not None:\n                base_id = id(arr.base)\n                if base_id not in seen:\n                    seen.add(base_id)\n                    yield arr.base", r"C08\.unique.*base_before_its_views"),
+    ("unique-base-not-marked-seen", "c08_sets", "_utils/lock_management.py", "                if base_id not in seen:\n                    seen.add(base_id)\n                    yield arr.base", "                if base_id not in seen:\n                    yield arr.base", r"C08\.unique.*exactly_once"),
+    ("unique-drops-bases", "c08_sets", "_utils/lock_management.py", "                    seen.add(base_id)\n                    yield arr.base\n", "                    seen.add(base_id)\n", r"C08\.unique.*exactly_once"),
+    ("force-lock-target-not-forced", "c08_sets", "_utils/lock_management.py", "    lock_arr_writeability(tensor.data, force_lock=True)", "    lock_arr_writeability(tensor.data)", r"C08\.force_lock.*target_locked_last_and_forced"),
+    ("force-lock-target-not-released", "c08_sets", "_utils/lock_management.py", "    tensor_refs.append(tensor.data)\n", "", r"C08\.force_lock.*finalizer_on_creator"),
+    ("force-lock-finalizer-on-tensor", "c08_sets", "_utils/lock_management.py", "    finalize(\n        tensor.creator,", "    finalize(\n        tensor,", r"C08\.force_lock.*finalizer_on_creator"),
+    ("release-op-skips-first", "c08_sets", "_utils/lock_management.py", "    for arr in arr_refs:\n        _release_lock_on_arr_writeability(arr)", "    for arr in list(arr_refs)[1:]:\n        _release_lock_on_arr_writeability(arr)", r"C08\.release_op.*one_release_per_live_array"),
     ("ctx-exit-no-dec", "c15_ctx", "_utils/__init__.py", "        self._depth -= 1\n        self.state = self._depth_tracker.pop(self._depth)", "        self.state = self._depth_tracker.pop(self._depth - 1)", r"C15\.ctx\..*__exit__\.depth"),
     ("ctx-enter-order", "c15_ctx", "_utils/__init__.py", "        self._depth_tracker[self._depth] = self.state\n        self._depth += 1\n        self.state = self._enter_set_value", "        self._depth += 1\n        self.state = self._enter_set_value\n        self._depth_tracker[self._depth - 1] = self.state", r"C15\.ctx\..*__enter__\.saved"),
     ("ctx-exit-swallow", "c15_ctx", "_utils/__init__.py", "        self.state = self._depth_tracker.pop(self._depth)\n", "        self.state = self._depth_tracker.pop(self._depth)\n        return True\n", r"C15\.ctx\..*(returns_falsy|exception_propagates)"),
